@@ -198,10 +198,11 @@ def run(ctx):
               "(labels != id) found", node=m.loop)
     if imask is not None:
         parts = [imask.value.left, imask.value.right]
+        snr_views = m._views(snr_name)
         lt = [p for p in parts if isinstance(p, ast.Compare) and
               len(p.ops) == 1 and isinstance(p.ops[0], ast.Lt) and
               norm(p.comparators[0]) == flood_p and
-              snr_name in names_in(p.left)]
+              snr_views & names_in(p.left)]
         ne = [p for p in parts if isinstance(p, ast.Compare) and
               len(p.ops) == 1 and isinstance(p.ops[0], ast.NotEq) and
               m.label_compare(p)]
@@ -335,26 +336,52 @@ def r5(ctx, prog):
              "yields indices of axis 1-j; consumers slice [lo:hi]")
     fi = prog.func("models.PixelIsland.calc_bounding_box")
     data_p, off_p = fi.params[1], fi.params[2]
-    # any-reductions
-    red = {}
-    for s in walk_no_nested(fi.node):
-        if isinstance(s, ast.Assign) and isinstance(s.value, ast.Call) and \
-                norm(s.value.func) in ("np.any", "numpy.any"):
-            ax = kwarg(s.value, "axis")
-            if ax is None and len(s.value.args) > 1:
-                ax = s.value.args[1]
-            if isinstance(ax, ast.Constant):
-                red[norm(s.targets[0])] = 1 - ax.value    # surviving axis
+    # flow of "indices of the occupied positions along axis k":
+    #   np.any(data, axis=j) leaves axis 1-j; np.where / np.nonzero / [0]
+    #   keep the axis; X[[0, -1]] yields (min index, max index)
+    env = {}
     lohi = {}
-    for s in walk_no_nested(fi.node):
-        if isinstance(s, ast.Assign) and isinstance(s.targets[0], ast.Tuple) \
-                and len(s.targets[0].elts) == 2:
-            v = s.value
-            txt = norm(v).replace(" ", "")
-            for r, ax in red.items():
-                if txt == "np.where(%s)[0][[0,-1]]" % r:
-                    lohi[norm(s.targets[0].elts[0])] = (ax, "min")
-                    lohi[norm(s.targets[0].elts[1])] = (ax, "max")
+
+    def axis_of(e):
+        """(axis, is_minmax_pair) or None"""
+        if isinstance(e, ast.Name):
+            return env.get(e.id)
+        if isinstance(e, ast.Call):
+            fn = norm(e.func)
+            if fn in ("np.any", "numpy.any") and e.args and \
+                    norm(e.args[0]) == data_p:
+                ax = kwarg(e, "axis")
+                if ax is None and len(e.args) > 1:
+                    ax = e.args[1]
+                if isinstance(ax, ast.Constant) and ax.value in (0, 1):
+                    return (1 - ax.value, False)
+            if fn in ("np.where", "numpy.where", "np.nonzero",
+                      "numpy.nonzero", "np.flatnonzero") and \
+                    len(e.args) == 1:
+                return axis_of(e.args[0])
+        if isinstance(e, ast.Subscript):
+            base = axis_of(e.value)
+            if base is None:
+                return None
+            if isinstance(e.slice, ast.Constant) and e.slice.value == 0:
+                return base
+            if isinstance(e.slice, ast.List) and \
+                    [norm(x) for x in e.slice.elts] == ["0", "-1"]:
+                return (base[0], True)
+        return None
+    for s in sorted((x for x in walk_no_nested(fi.node)
+                     if isinstance(x, ast.Assign)), key=lambda x: x.lineno):
+        t = s.targets[0]
+        r = axis_of(s.value)
+        if isinstance(t, ast.Name):
+            if r is not None:
+                env[t.id] = r
+            else:
+                env.pop(t.id, None)
+        elif isinstance(t, ast.Tuple) and len(t.elts) == 2 and \
+                r is not None and r[1]:
+            lohi[norm(t.elts[0])] = (r[0], "min")
+            lohi[norm(t.elts[1])] = (r[0], "max")
     if len(lohi) != 4:
         raise AnalysisError("C02-R5: min/max index idiom not recognised in "
                             "calc_bounding_box (found %s)" % lohi)
